@@ -729,6 +729,17 @@ func (e *SpecEnv) evalCall(n *SCall) SVal {
 		dh := vc.heapVar(dom)
 		k := arg(1)
 		return SVal{andT(fmt.Sprintf("(not (= %s 0))", m.T), sel(sel(vc.get(e.st, dh), m.T), k.T)), stBool}
+	case "iface":
+		// iface(x): the interface value holding Go value x (dynamic type = static type of x)
+		v := arg(0)
+		if v.Ty.Go == nil {
+			specFail("iface() of non-Go value")
+		}
+		if _, isIface := v.Ty.Go.Underlying().(*types.Interface); isIface {
+			return SVal{v.T, &SType{Sort: "Iface"}}
+		}
+		box, _ := vc.sorts.boxFn(v.Ty.Go)
+		return SVal{fmt.Sprintf("(%s %s)", box, v.T), &SType{Sort: "Iface"}}
 	case "tag":
 		return SVal{"(Iface_tag " + arg(0).T + ")", stInt}
 	case "dyn":
